@@ -64,6 +64,61 @@ claim("C02",
   "supplied per shard); floats are opaque non-integral tokens; attrs __eq__ = structural equality; wrong container types in direct (non-union) positions are outside the model and never generated; multipart encoding not modelled.",
   "Coq proof (fuel induction over a denotational codec model) + in-Coq differential correspondence against executed generated code", "4/C02")
 
+claim("C05",
+  "Coq theorems (PyLitThm.v, SitesThm.v; all Closed under the global context). Lexer level, for ALL strings and continuations: dq_literal_roundtrip (text through remove_string_escapes between double "
+  "quotes re-lexes character for character and the lexer resumes after the closing quote, guard no_bs_nl), raw_in_dq / raw_in_dq_quote_breaks, docstring_safe / docstring_escaped_safe (helpers.jinja "
+  "safe_docstring yields one literal for every content without a triple quote; escaped text never has one), repr_roundtrip_printable, lit_site (an inert image between plain template text inside one "
+  "literal: composition lemma by induction), identifier_slot_safe (PythonIdentifier / ClassName / kebab_case / enum-key images contain, inside ASCII, only word characters and '-': Unicode case-map facts "
+  "re-proved by vm_compute on regenerated tables). Site level: the table gen_sites (slot x file kind x lexical context x sanitiser class) is REGENERATED ON EVERY RUN from the generator's output "
+  "(canary probes, tokenize / TOML scanner); all_sites_safe : forallb site_safe gen_sites = true by vm_compute; site_sound : for every acceptable site and every payload inside its computable slot_guard the "
+  "emitted text re-lexes (PyLit lexers) to exactly the payload / the sanitised identifier with the lexer resuming after the literal. Sites that are safe only on a narrow domain are listed one by one in "
+  "Sites.known_narrow with a finding id and a ..._refuted witness (desc_code_exec, meta_injection, path_injection, content_type_injection, const_fstring; class-level: name_backslash, nul_char, "
+  "default_not_verbatim, xid_gap); a new raw interpolation / comment / code context / unescaped path makes a regenerated row unacceptable and the obligation all_sites_safe fails. "
+  "Correspondence (evaluated inside Coq): escape_dq, py_repr, lex_string, safe_docstring (against the REAL Jinja macro), lex_docstring, TOML guard vs utils.remove_string_escapes / repr / tokenize+"
+  "ast.literal_eval / tomllib on ~8k hostile cases per quick run; the site table vs a second, differently shaped probe document. Oracle: ~900 generated trees per quick run (every emitted slot x 13 payload "
+  "classes x metadata flavours / option settings, packed absent slots, random multi-slot combinations): compile()/tomllib, AST shape equal to the canary-only rendering, payload marker only inside string "
+  "tokens or sanitised identifiers, run-time-meaningful constants equal to the document text; every failure is classified by evaluating the Coq slot_guard of the sites of that slot in that file.",
+  "Trusted: Coq kernel+vm_compute; translator gen_sites.py and the probe grammar harness/lib/probe.py (slot coverage = 130 probed slots; 29 pydantic str positions it does not fill are listed in evidence as "
+  "unreached_fields); the sanitiser class of a site is inferred from one benign-specials probe and confirmed only by the oracle; CPython's tokenizer beyond string literals, f-string replacement fields "
+  "(modelled as: a brace in document text is code), Jinja wordwrap/indent (assumed whitespace-only) and octal/\\x/\\u/\\N escape decoding are not modelled (lexer answers None; repr round trip proved for "
+  "printable strings only); identifier VALIDITY of ClassName / enum keys rests on C09 (here only the character-class theorem).",
+  "Coq proof (induction on strings + reflection on a regenerated site table) + in-Coq differential correspondence + generated-tree oracle classified by the Coq guard", "4/C05")
+
+claim("C12",
+  "Coq theorems (OrderThm.v): the Python string order str_leb is a total order (refl/total/antisym/trans); for the stable insertion sort ksort: py_sorted_perm_invariant "
+  "(Permutation l l' -> sorted(l) = sorted(l'), all lists, no guard) and jinja_sort_perm_invariant (the Jinja `| sort` filter = stable sort on str.lower: same, under the guard keys_distinct lower l; "
+  "jinja_sort_case_tie_refuted gives the witness for the guard's complement); sorted_emission_deterministic (a renderer whose loop sites all sort is invariant under ANY permutation of every set's enumeration order) "
+  "and unsorted_refuted (any site list with one unsorted site has two enumerations with different output); on the table gen/GenLoops.v regenerated from the Jinja ASTs of all templates and an ast scan of "
+  "openapi_python_client/**/*.py (every for/join/list/pop/f-string over a set-typed expression; set-typedness inferred from annotations): all_loops_sorted_except_known (vm_compute), all_loops_sorted_if_fixed, and "
+  "rendering_verdict (if the lazy_imports loops are sorted then deterministic else a concrete pair of differing enumerations exists - holds before and after the fix). Order part (RetryThm.v): the "
+  "retry-until-no-progress loop of _create_schemas/_process_models on an abstract dependency graph handles exactly the least fixed point Derivable (process_sound, process_complete with fuel |todo|+1), hence "
+  "order_independent and clean_run_order_independent for every permutation of the to-do list. Correspondence: Coq sort models vs the real Jinja filter/sorted() on random lists, and for every generated module the lines "
+  "written by each loop site == Order.emit (sorted flag from the regenerated table) of the set in the generating process's own enumeration order. Oracle: byte comparison of whole trees generated in fresh interpreters "
+  "across PYTHONHASHSEEDs and across permutations of components.schemas/paths (diagnostic-free documents), thorough also with the ruff post-hooks; differences are classified line-exactly into the known findings "
+  "lazy_unsorted, sort_case_tie, addl_lazy_order, module_collision_order, anything else is a violation with (documents, seeds, first differing file) as replay.",
+  "Trusted: Coq kernel+vm_compute; gen_loops.py (name-based, conservative set-typedness inference; sites whose order only reaches diagnostic text (EDiag) or whose body commutes (ENone) are accepted); CPython's set iteration order is "
+  "not modelled (theorems quantify over all orders, the oracle samples 6/16 hash seeds); str.lower() final-sigma rule; the abstract retry model Retry.v is tied to the code only by the permutation oracle (no abstraction function is run), "
+  "and order independence of the CONTENTS of generated classes is checked by oracle, not proved; .ruff_cache is excluded from tree comparison. On the unchanged tree all_loops_sorted is false (known finding lazy_unsorted; fix in /verif/fixes/C12_lazy_sorted.diff).",
+  "Coq proof (sorting/permutation, table reflection, least-fixed-point of the retry loop) + in-Coq emission correspondence + differential tree oracle over hash seeds and permutations", "4/C12")
+
+claim("C15",
+  "Coq theorems about Merge.v, an executable model of merge_properties.py (merge, _merge_common_attributes, _merge_with_enum, _merge_with_literal_enum, _merge_same_type incl. the list item recursion) "
+  "and of the property-collection fold of _process_properties, for ALL property records (16 kinds, arbitrary enum tables / defaults / nested lists; no size bound): merge_required_or (merged property is required "
+  "iff a member requires it), merge_kind_narrowest (result kind = narrow_kind: integer over number, date/date-time/file over string, enum or literal enum over its base type, any yields), merge_wf, "
+  "merge_type_symmetric (under the guard g_merge both member orders give the same type: kind, enum value SET, the smaller enum, item type), merge_incompatible_symmetric (no common kind => a diagnostic in both orders), "
+  "collect_names / collect_required (the composed class has exactly the members' property names, each once, required iff some declaration is), merge_nonvacuous; refutation witnesses for the guard's complement and for "
+  "what the theorems deliberately do not claim: merge_first_wins_refuted, collect_order_refuted (three declarations: fold order matters), merge_enum_default_stale_refuted. The model is tied to the code on every run by "
+  "(1) ~24k (quick) / ~90k (thorough) calls of the real merge_properties on real property objects built by property_from_data - every ordered pair of 46 variants covering the 16 kinds x required x default, plus "
+  "hostile defaults - compared inside Coq with Merge.merge (MOk/MErr/MCrash, kind, required, default code + raw value, description/example, enum table / literal set / item / const / union / model identity), and "
+  "(2) the real _process_properties on random allOf lists (referenced, composed and inline members, required lists) compared with Merge.collect. Stage C generates exhaustive two-member and random chained documents "
+  "(parents declared after children) in both member orders and checks the composed class in a fresh interpreter: attributes = union of member properties, required = OR over members, same annotation in both orders or a "
+  "diagnostic in both, narrowest annotation, values outside the smaller enum refused, round trip of instances valid against all members, member classes unchanged by composition. Seven defect classes of the unchanged "
+  "code are listed as known findings and classified by the Coq guard / exact structural tests.",
+  "Trusted: Coq kernel+vm_compute; float()/isoparse/UUID enter Merge.merge as an oracle record tabulated from the real functions per run; union member identity and model identity are abstract tags (equality classes) in the model; "
+  "the translation document -> declaration list (which required list applies to which property; single-$ref pass-through) is NOT modelled - it is covered by the collect correspondence and the end-to-end oracle, which is where "
+  "allof_required_unapplied and allof_single_ref_drops_own were found; the accepted-set reading (C02 validity relation) of 'narrowest' is stated on kinds/payloads, not on JSON instances; description/default/example are order-dependent by design.",
+  "Coq proof (case analysis over kinds + induction over nested lists / enum tables / member lists) + in-Coq differential correspondence + end-to-end oracle", "4/C15")
+
 def main():
     checks = []
     for pid in ALL:
